@@ -346,7 +346,7 @@ def _compile_objects(sources, cmd, key):
         log = ""
         bad = False
         for i in range(0, len(todo), NPROC):
-            procs = [(o, subprocess.Popen(cmd + ["-c", s, "-o", o + ".tmp"], stdout=subprocess.PIPE,
+            procs = [(o, subprocess.Popen(cmd + ["-c", s, "-o", o + ".tmp%d" % os.getpid()], stdout=subprocess.PIPE,
                                           stderr=subprocess.STDOUT, universal_newlines=True))
                      for s, o in todo[i:i + NPROC]]
             for o, p in procs:
@@ -355,7 +355,7 @@ def _compile_objects(sources, cmd, key):
                     bad = True
                     log += out
                 else:
-                    os.replace(o + ".tmp", o)
+                    os.replace(o + ".tmp%d" % os.getpid(), o)
         if bad:
             return None, log[-4000:]
     return objs, ""
@@ -386,11 +386,11 @@ def cc_build(name, driver, sources=(), flags=(), sanitize=True, libs=True, cc="g
             shutil.rmtree(d, ignore_errors=True)
             return None, log
         srcs = objs
-    rc, out = sh(cmd + ["-o", exe + ".tmp", drv] + srcs + (LIBS if libs else []), timeout=timeout)
+    rc, out = sh(cmd + ["-o", exe + ".tmp%d" % os.getpid(), drv] + srcs + (LIBS if libs else []), timeout=timeout)
     if rc != 0:
         shutil.rmtree(d, ignore_errors=True)
         return None, out[-4000:]
-    os.replace(exe + ".tmp", exe)
+    os.replace(exe + ".tmp%d" % os.getpid(), exe)
     prune_cc_cache()
     return exe, out
 
